@@ -69,7 +69,13 @@ fn pad_start_of<M: ZooMsg + ?Sized>(mp: &MsgPlan, cap: usize, size: usize) -> us
     p
 }
 
-pub fn make_plan<M: ZooMsg + ?Sized>(d: &mut Decider, stats: &mut Stats, n_msgs_max: u32, tweak_p: u32) -> Plan {
+#[derive(Clone, Copy, Debug)]
+pub enum NSpec {
+    UpTo(u32),
+    Exactly(u32),
+}
+
+pub fn make_plan<M: ZooMsg + ?Sized>(d: &mut Decider, stats: &mut Stats, nspec: NSpec, tweak_p: u32) -> Plan {
     // size of the default value = smallest max_msg_len that lets the fallback message through
     let mut big = AlignedBytes::new(1024, M::ALIGN.max(16));
     big.fill(0);
@@ -78,7 +84,10 @@ pub fn make_plan<M: ZooMsg + ?Sized>(d: &mut Decider, stats: &mut Stats, n_msgs_
     let extras = [0usize, M::ALIGN, 8, 20, 40, 100, 250];
     let extra = extras[d.weighted(St::Cfg, &[2, 2, 3, 4, 4, 3, 1])];
     let max_send = base + extra;
-    let n_msgs = d.below(St::Cfg, n_msgs_max + 1) as usize;
+    let n_msgs = match nspec {
+        NSpec::UpTo(m) => d.below(St::Cfg, m + 1) as usize,
+        NSpec::Exactly(m) => m as usize,
+    };
     let cap = 2 * max_send.max(M::MIN_SIZE);
     let mut scratch = AlignedBytes::new(cap, M::ALIGN);
     let mut msgs = Vec::with_capacity(n_msgs);
@@ -301,6 +310,14 @@ pub fn receiver_blocking<M: ZooMsg + ?Sized>(sh: Shared, plan: Arc<Plan>) {
         let mut retries = 0u32;
         let mut parse_seen = 0u32;
         loop {
+            {
+                let mut w = lock(&sh);
+                if w.recvs.len() > w.pipe.sink.len() + 64 {
+                    let d = format!("{} recv() calls on a {}-byte stream without reaching the end", w.recvs.len(), w.pipe.sink.len());
+                    w.violate("", "T1-termination", "hang:no-progress", "recv", d);
+                    break;
+                }
+            }
             let before = rx.verif_buffer().verif_state();
             lock(&sh).begin_recv(before);
             let outcome: RecvOutcome;
@@ -471,6 +488,14 @@ pub async fn receiver_async<M: ZooMsg + ?Sized>(sh: Shared, plan: Arc<Plan>) {
     let mut retries = 0u32;
     let mut parse_seen = 0u32;
     loop {
+        {
+            let mut w = lock(&sh);
+            if w.recvs.len() > w.pipe.sink.len() + 64 {
+                let d = format!("{} recv() calls on a {}-byte stream without reaching the end", w.recvs.len(), w.pipe.sink.len());
+                w.violate("", "T1-termination", "hang:no-progress", "recv", d);
+                break;
+            }
+        }
         let before = rx.verif_buffer().verif_state();
         lock(&sh).begin_recv(before);
         let outcome: RecvOutcome;
